@@ -413,13 +413,15 @@ pub fn c13(cx: &mut Ctx) -> VResult {
 }
 
 
-pub const C14M_PROBES: &[&str] = &["multi_idle_conns_woken", "multi_conn_mid_request_at_shutdown", "multi_shutdown_ready"];
+pub const C14M_PROBES: &[&str] = &["multi_idle_conns_woken", "multi_conn_over_64", "multi_conn_mid_request_at_shutdown", "multi_shutdown_ready"];
 
 /// C14 with several live connections: all idle keep-alive connections (peers stay connected) must be
 /// woken by one shutdown request and stop; the shutdown future completes after the last of them.
 pub fn c14_multi(cx: &mut Ctx) -> VResult {
     cx.declare(C13_FAULTS, C14M_PROBES);
-    let n = 1 + cx.ch.weighted(&[1, 3, 3, 1]);
+    // scale: rarely more connections on one runner than any internal batch size might be (64, 128, 256)
+    let scale = cx.ch.chance(1, 50);
+    let n = if scale { cx.probe("multi_conn_over_64"); cx.ch.one_of(&[65usize, 66, 100, 129, 260]) } else { 1 + cx.ch.weighted(&[1, 3, 3, 1]) };
     let cfg = config(64, n + cx.ch.pick(2) as usize);
     let runner = cfg.async_runner();
     let mut conns: Vec<Conn> = Vec::new();
@@ -433,7 +435,7 @@ pub fn c14_multi(cx: &mut Ctx) -> VResult {
     }
     cx.nontrivial = true;
     // advance the connections for a while (some finish their request and go idle, some are mid-request)
-    let rounds = cx.ch.range(0, 40);
+    let rounds = if scale { cx.ch.range(0, 400) } else { cx.ch.range(0, 40) };
     for _ in 0..rounds {
         let i = cx.ch.pick(conns.len() as u32) as usize;
         let k = cx.ch.range(1, 30) as u64;
